@@ -429,6 +429,20 @@ pub(crate) fn take_lock_spin() -> bool {
     })
 }
 
+/// Deep part of a long `lock_spin` run: past the first 64 failures of the
+/// thread and still within the budget.
+pub(crate) fn take_lock_spin_deep() -> bool {
+    with_thread(|e, i| {
+        let n = e.threads[i].1.lockspun;
+        if n >= 64 && n < e.knobs.lock_spin && e.threads[i].1.nowait.is_none() {
+            e.threads[i].1.lockspun += 1;
+            true
+        } else {
+            false
+        }
+    })
+}
+
 /// Is the calling loom thread inside a no-wait region?
 pub fn in_nowait_lock() -> bool {
     with_thread(|e, i| matches!(e.threads[i].1.nowait, Some((NoWait::Lock, _, _))))
